@@ -216,3 +216,36 @@ func verifH_C09_gorilla() { verifC09(3) }
 
 //verif:harness id=C09 tier=thorough witness=end bounds="as quick with request paths of up to 4 bytes"
 func verifH_C09_gorilla5() { verifC09(5) }
+
+//verif:harness id=C09 tier=quick,thorough witness=end bounds="gorilla/mux-based router, path-level servers: document server /v1 (or none); paths /a, /m, /z where exactly one of them (explorer's choice) declares its own server /own; requests base in {none,/v1,/own} x path in {/a,/m,/z}: a path is routed exactly under its own servers if it declares some, else under the document's"
+func verifH_C09_gorilla_path_servers() {
+	doc, ops := verifDoc([]string{"/a", "/m", "/z"}, 0)
+	docBase := ""
+	if verifChoose("docServer", 2) == 1 {
+		doc.Servers = openapi3.Servers{{URL: "/v1"}}
+		docBase = "/v1"
+	}
+	own := []string{"/a", "/m", "/z"}[verifChoose("own", 3)]
+	doc.Paths.Value(own).Servers = openapi3.Servers{{URL: "/own"}}
+	if doc.Validate(verifCtx()) != nil {
+		return
+	}
+	router, err := NewRouter(doc)
+	verifAssert(err == nil, "C09 gorilla path servers: a router is built for a valid document")
+	if err != nil {
+		return
+	}
+	reqBase := []string{"", "/v1", "/own"}[verifChoose("reqBase", 3)]
+	p := []string{"/a", "/m", "/z"}[verifChoose("path", 3)]
+	route, _, ferr := router.FindRoute(&http.Request{Method: "GET", URL: &url.URL{Path: reqBase + p}, Header: http.Header{}})
+	wantBase := docBase
+	if p == own {
+		wantBase = "/own"
+	}
+	if reqBase == wantBase {
+		verifAssert(ferr == nil && route != nil && route.Path == p && route.Operation == ops[p]["GET"], "C09 gorilla path servers: a path is routed under its own servers, else under the document's")
+	} else {
+		verifAssert(ferr != nil, "C09 gorilla path servers: a URL under a server the path does not have is not routed")
+	}
+	verifReach("end")
+}
